@@ -6,6 +6,23 @@
 #include <stddef.h>
 #include <stdint.h>
 #include <string.h>
+#include <ctype.h>
+/* C11 7.4p1: the argument of a <ctype.h> function must be EOF or representable as unsigned char,
+ * anything else is undefined behaviour (and indexes outside the table on newlib).  The C-locale
+ * classification itself is CBMC's library model; these wrappers add the precondition as an
+ * obligation at every call site in the verified sources. */
+#define VERIF_CT(name) static inline int verif_##name(int c) { \
+    __CPROVER_precondition(c == -1 || (c >= 0 && c <= 255), "ctype argument is EOF or an unsigned char value"); return name(c); }
+VERIF_CT(isdigit) VERIF_CT(isalpha) VERIF_CT(isalnum) VERIF_CT(isxdigit) VERIF_CT(isspace) VERIF_CT(islower) VERIF_CT(isupper) VERIF_CT(tolower) VERIF_CT(toupper)
+#define isdigit(c) verif_isdigit(c)
+#define isalpha(c) verif_isalpha(c)
+#define isalnum(c) verif_isalnum(c)
+#define isxdigit(c) verif_isxdigit(c)
+#define isspace(c) verif_isspace(c)
+#define islower(c) verif_islower(c)
+#define isupper(c) verif_isupper(c)
+#define tolower(c) verif_tolower(c)
+#define toupper(c) verif_toupper(c)
 #include "scpi/config.h"
 #include "scpi/types.h"
 #include "scpi/ieee488.h"
@@ -56,6 +73,12 @@ void *nondet_ptr(void);
     (SAME((s)->pos, (s)->buffer) && OFF((s)->pos) >= OFF((s)->buffer) \
      && OFF((s)->pos) <= OFF((s)->buffer) + (s)->len)
 
+/* loop-invariant building blocks for cursor loops (text injected by tools/annotate.py) */
+#define LOOP_CURSOR(s) (LEX_INV(s) && OFF((s)->pos) >= OFF(__CPROVER_loop_entry((s)->pos)))
+#define LOOP_DISP(s) (OFF((s)->pos) - OFF(__CPROVER_loop_entry((s)->pos)))
+#define LOOP_CONSUMED(s) ((long) gh_li >= OFF(__CPROVER_loop_entry((s)->pos)) - OFF((s)->buffer) && (long) gh_li < OFF((s)->pos) - OFF((s)->buffer))
+#define LOOP_FIRST(s) ((s)->buffer[OFF(__CPROVER_loop_entry((s)->pos)) - OFF((s)->buffer)])
+#define LOOP_REMAIN(s) (OFF((s)->buffer) + (s)->len - OFF((s)->pos))
 #define LEX_END(s) ((s)->buffer + (s)->len)
 #define LEX_ATEND(s) (OFF((s)->pos) == OFF((s)->buffer) + (s)->len)
 
